@@ -7,7 +7,7 @@ wt=/tmp/seed-$id; out=/tmp/seedout-$id; log=/tmp/seedverify-$id.log
 export GOFLAGS=-mod=mod GOPROXY=off GOSUMDB=off GOTOOLCHAIN=local
 {
 cd $wt && git checkout -q -- . && git clean -fdq && git checkout -q --detach $(git -C /repo rev-parse HEAD) || exit 9
-demo=$(ls $out/*_test.go | head -1); rel=$(grep -o '[a-z]*/seed_demo_test.go' $out/README.md | head -1); rel=${rel:-swap/seed_demo_test.go}
+demo=$(find $out -name "*_test.go" | head -1); rel=$(grep -o '[a-z]*/seed_demo_test.go' $out/README.md | head -1); rel=${rel:-swap/seed_demo_test.go}
 pkg=$(dirname $rel)
 cp $demo $wt/$rel
 echo "== demo on clean tree"; go test -count=1 -run 'Seed' ./$pkg/ 2>&1 | tail -3
